@@ -55,6 +55,7 @@ def alphabet(ut=True, scalars=True):
             assign(M, IF(CMP("<=", V(M), C(1)), S(V(N), C(3)), IF(CMP(">=", V(N), C(2)), C(5), V(M)))),
             assign("arr", CALL("<builtin>array", [C(3)])),
             assign("arr", S(V("i"), V(N)), sub=[V("i")], loops=[["i", C(0), C(3)]]),
+            assign("arr", S(V("i"), P(C(2), V("j"))), sub=[V("j")], loops=[["i", C(0), C(2)], ["j", V("i"), C(3)]]),   # inner bound uses the outer index
             assign("a", ["sub", V("arr"), [C(1)]]),
             assign(M, ["pow", S(V(N), C(-3)), C(2)]),
             assign("b", CALL("<builtin>len", [V("arr")])),
@@ -160,4 +161,14 @@ def core_shapes():
         [k, n_gt2, w, E, {"op": "else"}, assign("w", S(V(Y), P(C(2), V("k")))), {"op": "endelse"}, ymv, ninc],   # written in both branches
         [k, m_lt1, w, E, assign("w", S(V(Y), P(C(3), V("k")))), ymv, ninc],                                      # written in a guard, again after it
         [n_eq1, k, E, kw_ if False else acall(["k"], "<func>rhs", [V("<t>"), V(Y)]), w, ymv],
-    ] + [[g, assign(M, S(V(M), C(5))), E, ninc] for g in a if g["op"] == "if"]      # every guard form of the profile
+    ] + [[g, assign(M, S(V(M), C(5))), E, ninc] for g in a if g["op"] == "if"] + [   # every guard form of the profile
+        [assign(M, ["pow", ["pow", V(N), C(2)], C(3)]), ninc],            # a power as the base of a power
+        # loop nests: the inner bound uses the outer index; a loop bound held in a persistent variable
+        [assign("arr", ["call", V("<builtin>array"), [C(4)], []]), assign("arr", C(0), sub=[V("i")], loops=[["i", C(0), C(4)]]),
+         assign("arr", S(["sub", V("arr"), [V("j")]], V("i"), P(C(2), V("j")), C(1)), sub=[V("j")],
+                loops=[["i", C(0), C(3)], ["j", V("i"), C(4)]]),
+         assign(M, S(["sub", V("arr"), [C(1)]], P(C(3), ["sub", V("arr"), [C(3)]]))), ninc],
+        [assign("arr", ["call", V("<builtin>array"), [C(4)], []]), assign("arr", V("i"), sub=[V("i")], loops=[["i", C(0), C(4)]]),
+         assign("arr", S(["sub", V("arr"), [V("i")]], C(10)), sub=[V("i")], loops=[["i", V(N), C(3)]]),
+         assign(M, S(["sub", V("arr"), [C(0)]], ["sub", V("arr"), [C(2)]])), ninc],
+    ]
